@@ -532,12 +532,12 @@ SEEDS = [
     dict(id="c10-angle", file=BF, expect="C10.T", construct="correction:PHI_MINUS", old="                ICmd(instruction=GenericInstr.ROT_Z, operands=[qubit_reg, 16, 4])\n            ]\n            self.subrt_add_pending_commands(correction_cmds)  # type: ignore\n        with bell_state.if_eq(BellState.PSI_PLUS.value)", new="                ICmd(instruction=GenericInstr.ROT_Z, operands=[qubit_reg, 8, 4])\n            ]\n            self.subrt_add_pending_commands(correction_cmds)  # type: ignore\n        with bell_state.if_eq(BellState.PSI_PLUS.value)"),
     dict(id="c10-flip-table", file=BEF, expect="C10.M", construct="post-process:PSI_PLUS", old="            elif self.bell_state == BellState.PSI_PLUS:\n                # correct for X-gate applied to Phi+\n                if local in [\n                    EprMeasBasis.Y,\n                    EprMeasBasis.MY,", new="            elif self.bell_state == BellState.PSI_PLUS:\n                # correct for X-gate applied to Phi+\n                if local in [\n                    EprMeasBasis.X,\n                    EprMeasBasis.MY,"),
     dict(id="c10-basis-rotation", file=BEF, expect="C10.M", construct="basis-tables:MX", old="    elif basis == EprMeasBasis.MX:\n        return (0, 8, 0)", new="    elif basis == EprMeasBasis.MX:\n        return (0, 24, 0)"),
-    dict(id="c10-orig-post-loop-zero", file=BF, expect="C10.Q", construct="_build_cmds_post_epr.post_loop", old="                qubit_reg_cmds = qubit_ids.get_future_index(\n                    loop_reg\n                ).get_load_commands(qubit_reg)\n                self.subrt_add_pending_commands(qubit_reg_cmds)\n", new="                self.subrt_add_pending_command(ICmd(instruction=GenericInstr.SET, operands=[qubit_reg, 0]))\n"),
+    dict(id="c10-orig-post-loop-zero", file=BF, expect="C10.Q", construct="_build_cmds_post_epr.<closure", old="                qubit_reg_cmds = qubit_ids.get_future_index(\n                    loop_reg\n                ).get_load_commands(qubit_reg)\n                self.subrt_add_pending_commands(qubit_reg_cmds)\n", new="                self.subrt_add_pending_command(ICmd(instruction=GenericInstr.SET, operands=[qubit_reg, 0]))\n"),
     dict(id="c10-ungated", file=BF, expect="C10.E", construct="_build_cmds_epr_recv_keep", old="        if wait_all and params.expect_phi_plus:\n            self._build_cmds_epr_keep_corrections(\n                qubit_ids_array, ent_results_array, params\n            )\n\n    def _build_cmds_epr_create_measure(", new="        if wait_all:\n            self._build_cmds_epr_keep_corrections(\n                qubit_ids_array, ent_results_array, params\n            )\n\n    def _build_cmds_epr_create_measure("),
     dict(id="c10-post-process-flag", file=BEF, expect="C10.E", construct="post_process", old="                post_process=(request.expect_phi_plus and role == EPRRole.RECV),", new="                post_process=(role == EPRRole.RECV),"),
     dict(id="c10-meas-x-const", file=BF, expect="C10.M", construct="_build_cmds_measure:X", old="                operands=[qubit_reg, outcome_reg, 0, 24, 0, denom],  # -pi/2 Y rotation", new="                operands=[qubit_reg, outcome_reg, 0, 8, 0, denom],  # -pi/2 Y rotation"),
     dict(id="c10-wait-move-generic", file=BF, expect="C10.Q", construct="_build_cmds_wait_move_epr_to_mem", old="        if params.post_routine is None and single_comm_qubit:\n            self._build_cmds_wait_move_epr_to_mem(", new="        if params.post_routine is None:\n            self._build_cmds_wait_move_epr_to_mem("),
-    dict(id="c10-wrong-index", file=BF, expect="C10.Q", construct="_build_cmds_post_epr.post_loop", old="                qubit_reg_cmds = qubit_ids.get_future_index(\n                    loop_reg\n                ).get_load_commands(qubit_reg)", new="                qubit_reg_cmds = qubit_ids.get_future_index(\n                    0\n                ).get_load_commands(qubit_reg)"),
+    dict(id="c10-wrong-index", file=BF, expect="C10.Q", construct="_build_cmds_post_epr.<closure", old="                qubit_reg_cmds = qubit_ids.get_future_index(\n                    loop_reg\n                ).get_load_commands(qubit_reg)", new="                qubit_reg_cmds = qubit_ids.get_future_index(\n                    0\n                ).get_load_commands(qubit_reg)"),
 ]
 BENIGN = [
     dict(id="c10-benign-gate-through-helper", edits=[
